@@ -137,7 +137,7 @@ Definition reg_corr (aw : Z) (h : chw) (l : list info) : Prop :=
      i_start i = hl_base L + Mux.r_start r /\ i_end i = hl_base L + Mux.r_stop r) /\
   (forall L k id r, In L (hw_leaves aw h) -> nth_error (hl_ids L) k = Some id ->
      nth_error (Mux.c_regs (hl_cfg L)) k = Some r ->
-     exists i, In i l /\ i_res i = id /\ i_start i = hl_base L + Mux.r_start r /\
+     exists i, In i l /\ i_res i = id /\ leaf_reg L k id r /\ i_start i = hl_base L + Mux.r_start r /\
                i_end i = hl_base L + Mux.r_stop r).
 
 Lemma nth_error_split {X Y} (l : list (X * Y)) k x y :
@@ -177,13 +177,17 @@ Proof.
     eexists _, k, r. split; [left; reflexivity|]. unfold leaf_reg. cbn [hl_ids hl_cfg hl_base hl_aw].
     rewrite Hregs, !nth_error_map, Hk. cbn [option_map fst snd r Mux.r_start Mux.r_stop].
     repeat split; lia.
-  - intros L k id r [<-|[]] Hid Hr. cbn [hl_ids hl_cfg hl_base] in *. rewrite Hregs in Hr.
+  - intros L k id r [<-|[]] Hid Hr. unfold leaf_reg. cbn [hl_ids hl_cfg hl_base hl_aw] in *.
+    pose proof Hr as Hr0. rewrite Hregs in Hr.
     pose proof (nth_error_In _ _ (nth_error_split _ _ _ _ Hid Hr)) as Hin.
     apply mux_regs_In in Hin as (x & rr & lf & Hx & Ea & Ef & El & ->).
+    pose proof (chain_all_ge _ _ Hch) as Hge. rewrite Forall_forall in Hge.
+    pose proof (Hge _ Hx) as [Hx0 Hx1]. pose proof (Hstop _ Hx) as Hx2. rewrite Haw in Hx2.
     destruct (Hent x Hx) as (rr' & Hrr' & ->). cbn [ent_of_res e_asg e_start e_stop] in *.
     injection Ea as <-.
     destruct (res_contrib _ _ _ Hwf Hl Hrr') as (i & Hmk & Hi & _).
-    apply mk_info_ok in Hmk as (-> & _). eexists. split; [exact Hi|]. cbn. repeat split; lia.
+    apply mk_info_ok in Hmk as (-> & _). eexists. split; [exact Hi|].
+    cbn [i_res i_start i_end Mux.r_start Mux.r_stop]. repeat split; auto; lia.
 Qed.
 
 Lemma leaf_reg_shift d L k id r : leaf_reg L k id r -> leaf_reg (hshift d L) k id r.
@@ -229,12 +233,12 @@ Proof.
       destruct (win_contrib _ _ _ _ Hwf Hl Hwc) as (lc & lx & Hc & HF & _ & Hincl).
       pose proof Hc as Hc'. rewrite frozen_all_resources in Hc'. pose proof (nth_error_In _ _ Es) as Hin.
       destruct (IH _ Hin (proj2 (Hdom _ Hin)) _ _ _ Hmw Hhw Hc') as [_ IH2]. cbn [snd] in IH2.
-      destruct (IH2 L' k id r HL' Hid Hr) as (i' & Hi' & Hid' & Hs & He).
+      destruct (IH2 L' k id r HL' Hid Hr) as (i' & Hi' & Hid' & Hreg & Hs & He).
       destruct (Forall2_in_l _ _ _ _ HF Hi') as (i & Hi & Ht).
       destruct (in_window _ _ _ _ _ _ Hwt Hwc Hc Hi' Ht) as (_ & _ & -> & _ & _).
       eexists. split; [apply Hincl; exact Hi|].
       cbn [translated i_res i_start i_end hshift hl_base]. rewrite Hstep, !Z.div_1_r.
-      split; [exact Hid'|]. lia.
+      split; [exact Hid'|]. split; [apply leaf_reg_shift; exact Hreg|]. lia.
 Qed.
 
 (* ------------------------------------------------------------------ one data width throughout *)
